@@ -28,6 +28,8 @@ struct Params {
     sqn: u32,
     sq_init: u32,
     sqpoll: bool,
+    /// Build the ring with `Config::single_issuer`.
+    single: bool,
 }
 
 struct Outcome {
@@ -44,6 +46,7 @@ fn run_once(p: &Params, prefix: Vec<usize>, random: Option<u64>) -> Outcome {
     alloc::begin();
     let config = a10::Ring::config().with_submission_queue_size(p.sqn).with_completion_queue_size(p.sqn.max(2) * 2);
     let config = if p.sqpoll { config.with_kernel_thread() } else { config };
+    let config = if p.single { config.single_issuer() } else { config };
     let ring = config.build().expect("ring");
     let rfd = *simk::kernel().rings.keys().next().unwrap();
     let fdn = simk::kernel().alloc_fd();
@@ -196,7 +199,7 @@ fn run_once(p: &Params, prefix: Vec<usize>, random: Option<u64>) -> Outcome {
 
 fn main() {
     let args: Vec<String> = std::env::args().collect();
-    let mut p = Params { threads: 2, adds: 2, sqn: 1, sq_init: 0, sqpoll: true };
+    let mut p = Params { threads: 2, adds: 2, sqn: 1, sq_init: 0, sqpoll: true, single: false };
     let mut preemptions = 2usize;
     let mut max_exec = 200_000u64;
     let mut out_path = String::new();
@@ -213,6 +216,7 @@ fn main() {
             "--sqn" => p.sqn = v.parse().unwrap(),
             "--sq-init" => p.sq_init = v.parse().unwrap(),
             "--mode" => p.sqpoll = v != "enter",
+            "--single" => p.single = v == "1",
             "--preemptions" => preemptions = v.parse().unwrap(),
             "--max-exec" => max_exec = v.parse().unwrap(),
             "--random" => random_runs = v.parse().unwrap(),
@@ -234,7 +238,7 @@ fn main() {
     events::install();
     let mut out: Box<dyn std::io::Write> =
         if out_path.is_empty() { Box::new(std::io::stdout()) } else { Box::new(std::fs::File::create(&out_path).unwrap()) };
-    let config = |p: &Params| json!({"threads": p.threads, "adds": p.adds, "sqn": p.sqn, "sq_init": p.sq_init, "mode": if p.sqpoll { "sqpoll" } else { "enter" }});
+    let config = |p: &Params| json!({"threads": p.threads, "adds": p.adds, "sqn": p.sqn, "sq_init": p.sq_init, "mode": if p.sqpoll { "sqpoll" } else { "enter" }, "single": p.single});
     if !replay_file.is_empty() {
         let v: Value = serde_json::from_str(&std::fs::read_to_string(&replay_file).expect("replay file")).unwrap();
         let c = &v["config"];
@@ -244,6 +248,7 @@ fn main() {
             sqn: c["sqn"].as_u64().unwrap() as u32,
             sq_init: c["sq_init"].as_u64().unwrap() as u32,
             sqpoll: c["mode"] == "sqpoll",
+            single: c["single"].as_bool().unwrap_or(false),
         };
         let prefix: Vec<usize> = v["schedule"].as_array().map(|a| a.iter().filter_map(Value::as_u64).map(|x| x as usize).collect()).unwrap_or_default();
         let o = run_once(&p, prefix, None);
